@@ -151,6 +151,7 @@ class Config:
         self.opaque_globals = {}   # module-global name -> SV factory (symbolic configuration inputs)
         self.pure_builtins = set()
         self.extern = {}           # dotted external function name -> handler(ex, st, args) -> outcomes
+        self.pure_ctors = set()    # classes whose construction is modelled as a pure function of the arguments (argument validation not modelled)
         self.kwdict_copy_as_dict = False  # dict(kwargs) yields a modelled dict (symbolic lookups) instead of a static kwargs model
         self.pure_models = {}      # qualified function name -> handler(ex, st, closure, args) -> outcomes (abstract pure functions)
         self.inline_star_ctors = set()  # classes whose constructor may be inlined with a symbolic *args tuple
@@ -280,6 +281,14 @@ class Executor:
         """SV -> z3 R term, emitting ground payload facts"""
         k = v.k
         if k == 'ref':
+            if v.t == 'kwdict':
+                o = self.local(st, v)
+                if o is not None:
+                    # a **kwargs dict with a statically known key set, boxed by value (name, value) pairs
+                    pairs = [self._box_seq(st, Z.seq_of([self.box(st, sv_str(n)), self.box(st, x)])) for n, x in o.items.items()]
+                    t = fn('kwdict_box', R, R)(self._box_seq(st, Z.seq_of(pairs)))
+                    st.add(t != Z.NONE)
+                    return t
             return v.v
         if k == 'none':
             return Z.NONE
@@ -322,6 +331,8 @@ class Executor:
             return t
         if k == 'module':
             return const('MOD_' + v.v)
+        if k == 'ref' and False:
+            pass
         raise Unsupported('cannot box %r' % (v,))
 
     def _box_seq(self, st, seq):
@@ -333,16 +344,38 @@ class Executor:
     def _box_func(self, st, clo):
         # identity of a closure: definition site + the frame it closes over (a fresh function object per evaluation of the def/lambda)
         # (two closures with identical code and identical captured values are behaviourally identical)
-        import hashlib
-        site = 'clo_' + hashlib.sha1(ast.dump(clo.node).encode()).hexdigest()[:12] if isinstance(clo.node, ast.Lambda) else \
-               'clo_%s_%s' % (clo.module, getattr(clo.node, 'name', 'f'))
+        import hashlib, copy as _copy
         cap = []
-        if clo.fid is not None and clo.fid in st.frames and not isinstance(clo.node, ast.FunctionDef) or (clo.fid not in (None, 0)):
-            params = {a.arg for a in clo.node.args.args + clo.node.args.kwonlyargs} if hasattr(clo.node, 'args') else set()
-            names = sorted({n.id for n in ast.walk(clo.node) if isinstance(n, ast.Name)} - params)
-            for n in names:
-                if clo.fid in st.frames and n in st.frames[clo.fid]:
-                    val = st.frames[clo.fid][n]
+        bound = set()
+        for sub in ast.walk(clo.node):
+            if isinstance(sub, (ast.Lambda, ast.FunctionDef)):
+                bound |= {a.arg for a in sub.args.args + sub.args.kwonlyargs + sub.args.posonlyargs}
+                if sub.args.vararg: bound.add(sub.args.vararg.arg)
+                if sub.args.kwarg: bound.add(sub.args.kwarg.arg)
+        order = []
+        for sub in ast.walk(clo.node):
+            if isinstance(sub, ast.Name) and sub.id not in order:
+                order.append(sub.id)
+        captured = [n for n in order if n not in bound and clo.fid is not None and clo.fid in st.frames and self._frame_has(st, clo.fid, n)]
+        if isinstance(clo.node, ast.Lambda):
+            # identity up to renaming of parameters and captured variables (alpha-equivalence); globals keep their names
+            ren = {}
+            for n in order:
+                if n in bound or n in captured:
+                    ren[n] = 'v%d' % len(ren)
+            norm = _copy.deepcopy(clo.node)
+            for sub in ast.walk(norm):
+                if isinstance(sub, ast.Name) and sub.id in ren:
+                    sub.id = ren[sub.id]
+                elif isinstance(sub, ast.arg) and sub.arg in ren:
+                    sub.arg = ren[sub.arg]
+            site = 'clo_' + hashlib.sha1(ast.dump(norm).encode()).hexdigest()[:12]
+        else:
+            site = 'clo_%s_%s' % (clo.module, getattr(clo.node, 'name', 'f'))
+        if True:
+            for n in captured:
+                if True:
+                    val = self.lookup(st, n, clo.module, clo.fid)
                     if val.k in ('func',) and val.v is clo:
                         continue
                     try:
@@ -352,8 +385,22 @@ class Executor:
         if clo.selfsv is not None:
             cap.append(self.box(st, clo.selfsv))
         t = fn(site, *([R] * len(cap)), R)(*cap) if cap else const(site)
+        if not any(z3.eq(t, x) for x, _ in st.ghost.get('$clo', ())):
+            st.ghost['$clo'] = list(st.ghost.get('$clo', ())) + [(t, clo)]
         st.add(Z.callable_(t), Z.truthy_(t), t != Z.NONE, z3.Not(Z.is_int(t)), z3.Not(Z.is_str(t)), z3.Not(Z.is_tuple(t)))
         return t
+
+    def _frame_has(self, st, fid, name):
+        f = fid
+        while f is not None:
+            fr = st.frames.get(f)
+            if fr is None:
+                return False
+            if name in fr:
+                return True
+            p = fr.get('$parent')
+            f = p.v if p is not None else None
+        return False
 
     def unbox(self, st, term, tag):
         """R term -> SV according to a declared type tag"""
@@ -411,6 +458,10 @@ class Executor:
         if v.k != 'ref' or not st.objs:
             return
         key = self.refkey(v.v)
+        if key is not None and key in st.objs and st.objs[key].kind == 'kwdict':
+            for x in st.objs[key].items.values():
+                self.publish(st, x)
+            return          # kwargs dicts are boxed by value
         o = st.objs.pop(key, None) if key is not None else None
         if o is None:
             return
@@ -619,6 +670,8 @@ class Executor:
             r = self._glom_global(st, name, module)
             if r is not None:
                 return r
+        if name in ('map', 'filter', 'imap', 'ifilter'):
+            return SV('builtin', 'builtins.' + name.lstrip('i'))
         if name in BUILTIN_EXC or name in BUILTIN_TYPES:
             return SV('class', name)
         if name in BUILTIN_FUNCS:
@@ -824,6 +877,17 @@ class Executor:
             t = fn('fstr_' + hashlib.sha1(shape.encode()).hexdigest()[:10], *([R] * len(terms)), Z.S)(*terms) if terms else z3.StringVal(
                 ''.join(v.value for v in e.values if isinstance(v, ast.Constant)))
             outs.append(('ok', s, SV('str', t)))
+        return outs
+
+    def e_Yield(self, e, st, module):
+        # inside a generator body under contract: a yield is an observable event on the output stream, in program order
+        outs = []
+        vals = self.eval(e.value, st, module) if e.value is not None else [('ok', st, NONE_SV)]
+        for kind, s, v in vals:
+            if kind != 'ok':
+                outs.append((kind, s, v)); continue
+            for k2, s2, r in self.prim(s, 'yield', [v], raises=False):
+                outs.append(('ok', s2, NONE_SV))
         return outs
 
     def e_Lambda(self, e, st, module):
